@@ -365,7 +365,7 @@ func sectionNode(t *testing.T, r *ev.Run) {
 	cases := buildCfgCases(r.Thorough())
 	r.Bound("configurations", len(cases))
 	r.Bound("url_classes", len(urlsProduct)+len(urlsExtra))
-	r.Bound("full_product", map[bool]string{false: "2 strict x 11 urls x 3 tls x 2 crypto x 2 sql x 2 validators x 2 irma x 3 didmethods", true: "2 strict x 48 urls x 3 tls x 3 crypto x 2 sql x 2 validators x 2 irma x 3 didmethods x 2 allow lists"}[r.Thorough()])
+	r.Bound("full_product", map[bool]string{false: "2 strict x 11 urls x 3 tls x 2 crypto x 2 sql x 2 validators x 2 irma x 3 didmethods", true: fmt.Sprintf("2 strict x %d urls x 3 tls x 3 crypto x 2 sql x 2 validators x 2 irma x 3 didmethods x 2 allow lists", len(urlsProduct)+len(urlsExtra))}[r.Thorough()])
 	for idx, c := range cases {
 		if !r.Mine(idx) {
 			continue
